@@ -173,6 +173,22 @@ func scenarios(prop, tier string) []*Scenario {
 			r = append(r, &Scenario{Name: baseName(base), Cfg: hdr.Config{MaxBranchDepth: 144, Base: base}, N: 2, M: 1,
 				Maint: []hdr.Op{opClean}, Attach: []int{0, -1}, Slots: []string{"a", "H"}})
 		}
+		// taller chains above the synthetic split heights (2 and 3): the locator's back-off loop only
+		// runs more than once above height ~6, and split fork points are inserted inside it
+		for _, p := range []int{8, 11, 14, 19, 30} {
+			r = append(r, &Scenario{Name: "synthetic-splits/prefix-" + itoa(p), Cfg: hdr.Config{MaxBranchDepth: 144, Splits: "synth", Prefix: p},
+				N: pick(2, 3), M: 1, Maint: []hdr.Op{opClean}, Slots: []string{"a", "H"}})
+		}
+		// split heights 20/21: tips from just above the splits up to 24 above them, so that the
+		// fork points are inserted in the first, second or third step of the back-off loop
+		var tall []int
+		for p := 21; p <= pick(48, 70); p++ {
+			tall = append(tall, p)
+		}
+		for _, p := range tall {
+			r = append(r, &Scenario{Name: "splits-at-20-21/prefix-" + itoa(p), Cfg: hdr.Config{MaxBranchDepth: 144, Splits: "synth20", Prefix: p},
+				N: pick(1, 2), M: 1, Maint: []hdr.Op{opClean}, Attach: nil, Slots: []string{"a", "H"}, OnlyTipParents: 3})
+		}
 		for _, s := range r {
 			s.oracles = []oracle{oracleC19}
 		}
